@@ -298,7 +298,7 @@ static void conversions(Report & rep)
     const SO2<S> g(z);
     const Vec gc = toL(g.coeffs());
     auto det = [&]() { return JObj().str("type", T).num("re", z.real()).num("im", z.imag()).raw("coeffs", hexv(gc)).done(); };
-    rep.note_input(Report::hash_vec(c, uint64_t(scale * 1e6L)), true);
+    rep.note_input(Report::hash_vec(c, hash_bytes(&scale, sizeof scale)), true);
     const std::string st = std::string(scale == 1 ? "unit" : "scaled") + ",ang:" + rot_label(element_angle(*lo2, c));
     const L n = sqrtl(L(z.real()) * z.real() + L(z.imag()) * z.imag());
     Vec ref(2);
